@@ -96,7 +96,7 @@ fn check(nsheets: u32, cells: &Cells, perm: &[usize], st: &mut Stats) -> Option<
 }
 
 const ARRAYS: &[&str] = &["=SEQUENCE(2,2)", "=SEQUENCE(3)", "=A1:B2*2", "=TRANSPOSE(A1:B3)", "=A1:A3&\"x\"", "=SEQUENCE(2,2)*D1", "=SUM(SEQUENCE(3))+C1:C2", "=ABS(B1:B3)", "=C3:E4", "=IF(A1:C1>0,1,\"n\")"];
-const READERS: &[&str] = &["=SUM(A8:C10)", "=A8#", "=A9+E9", "=COUNT(E8:G10)", "=E8#*2", "=CONCAT(A12:C14)", "=A12#", "=SUM(A8#)+B1", "=ISBLANK(B9)", "=A10&E10"];
+const READERS: &[&str] = &["=A9:A10*2", "=B8:C9&\"\"", "=E9:E10+1", "=SUM(A8:C10)", "=A8#", "=A9+E9", "=COUNT(E8:G10)", "=E8#*2", "=CONCAT(A12:C14)", "=A12#", "=SUM(A8#)+B1", "=ISBLANK(B9)", "=A10&E10"];
 
 /// Dynamic arrays live below the grid of plain inputs (rows 8-14), in blocks that cannot
 /// reach each other; they read the grid, and formulas further down (rows 16+) read the spills.
@@ -113,6 +113,11 @@ fn gen(rng: &mut rand::rngs::StdRng, nsheets: u32, arrays: bool) -> Cells {
             if rng.gen_bool(0.2) {
                 cells.push((0, r + rng.gen_range(0..3), c + rng.gen_range(1..3), (*pick(rng, &["7", "x", "=1+1"])).to_string()));
             }
+        }
+        // a dynamic array placed BEFORE its sources in evaluation order that reads only the
+        // non-anchor cells of their spills (column D is free between the blocks)
+        if rng.gen_bool(0.5) {
+            cells.push((0, 7, 4, (*pick(rng, &["=A9:A10*2", "=E9:E10+1", "=C8:C9&\"\"", "=B9:B10", "=F9:F10*1"])).to_string()));
         }
         for (k, (r, c)) in [(16, 1), (16, 5), (20, 1), (20, 5)].iter().enumerate() {
             if rng.gen_bool(0.6) {
